@@ -547,6 +547,33 @@ Proof.
   - destruct dust; [left|right]; reflexivity.
 Qed.
 
+(* an earn withdrawal moves, besides the signer's shares, only the strategy
+   deposit of the earn module account *)
+Lemma strategy_withdraw_deps : forall e s d amt s1,
+  strategy_withdraw e s d amt = Some s1 ->
+  forall w, w <> earn_macc e -> forall x, hard_dep s1 w x = hard_dep s w x /\ sav_dep s1 w x = sav_dep s w x.
+Proof.
+  intros e s d amt s1 H w Hw x. unfold strategy_withdraw in H.
+  destruct (amt <=? 0); [inversion H; subst; auto|].
+  destruct (Nat.eqb (earn_strat e d) 0).
+  - unfold hard_withdraw in H.
+    repeat match type of H with match (if ?c then _ else _) with _ => _ end = _ => destruct c; [discriminate|] end.
+    inversion H; subst. cbn. rewrite upd_other by assumption. auto.
+  - unfold sav_withdraw in H.
+    repeat match type of H with match (if ?c then _ else _) with _ => _ end = _ => destruct c; [discriminate|] end.
+    inversion H; subst. cbn. rewrite upd_other by assumption. auto.
+Qed.
+
+Theorem earn_withdraw_strategy_frame : forall e s a d ws wa av dust rest s' out,
+  step e s (EarnWithdraw a d ws wa av dust rest) = Ok s' out ->
+  forall w, w <> earn_macc e -> forall x, hard_dep s' w x = hard_dep s w x /\ sav_dep s' w x = sav_dep s w x.
+Proof.
+  intros e s a d ws wa av dust rest s' out H w Hw x. cbn [step] in H. unfold earn_withdraw in H.
+  repeat match type of H with (if ?c then _ else _) = _ => destruct c; [discriminate|] end.
+  destruct (strategy_withdraw e s d wa) as [s1|] eqn:SW; [|discriminate].
+  inversion H; subst. cbn. exact (strategy_withdraw_deps _ _ _ _ _ SW w Hw x).
+Qed.
+
 (** * Invariant over all histories *)
 
 Record Inv (e : env) (s : state) : Prop := {
